@@ -237,6 +237,20 @@ Theorem C13_validate_header_chain_ok_sequential :
 Proof. exact validate_ok_sequential. Qed.
 Print Assumptions C13_validate_header_chain_ok_sequential.
 
+(* ValidateHeaderChain consumes exactly one result per header — also for headers already in the chain, whose worker
+   answers Ok in its own slot: the verdict is the first failure of the per-index results, at its own index *)
+Theorem C13_validate_header_chain_is_first_failure :
+  forall (c : cfg) (chain : list header) (now : Z) (hs : list header) (seals : list bool),
+    contiguous_b hs = true ->
+    validate_with_seals c chain now hs seals (fun _ => false) =
+    match first_failure (map (verify_worker c chain now hs seals) (seq 0 (length hs))) 0 with
+    | None => VOk
+    | Some (j, Err e) => VFail j e
+    | Some (j, _) => VPanic
+    end.
+Proof. exact validate_is_first_failure. Qed.
+Print Assumptions C13_validate_header_chain_is_first_failure.
+
 (* uncles at ANY height, the hard-coded historic exceptions stated explicitly (uncles_spec, HeaderSpec.v) *)
 Theorem C13_uncles_iff_any_height :
   forall (c : cfg) (chain : list header) (blocks : list block) (now : Z) (b : block),
